@@ -1,7 +1,12 @@
 package rules
 
 import (
+	"fmt"
+	"go/token"
+	"go/types"
 	"strings"
+
+	"golang.org/x/tools/go/ssa"
 
 	"xkvverif/internal/core"
 )
@@ -37,5 +42,136 @@ func dt5EncodersFresh(p *core.Prog, rep *core.Report) {
 	}
 	if n == 0 {
 		rep.Unk("DT5", "vacuity:encoders", "at least one encode method of package datatype returns bytes", "", "no encoder found")
+	}
+}
+
+// ---- FID1: a new data file continues the id sequence of the active file ---------------------------------------------
+//
+// Seeds C02-L and C03-L (round 6, two agents independently): `fileID := uint32(len(db.olderFiles))`. Ids are dense only
+// until the first adopted merge; afterwards the next rotation creates a file whose id lies BELOW files holding older
+// data, and recovery - which replays files in ascending id order - lets stale values win.
+func fid1IdsFromActive(p *core.Prog, rep *core.Report) {
+	R := p.R
+	rep.Rule("FID1", "file ids continue from the active file: in every function of the engine that opens a data file and stores it into the active-file field, the id handed to the constructor is, on every path, a constant (first file), the active file's own id plus a constant, or an id handed in / listed by the caller (loading); an id computed from anything else (a count of files, a length) falls below existing ids once a merge has left gaps, and recovery replays files in id order")
+	n := 0
+	for _, fn := range p.LibFuncs() {
+		if !inRootPkg(fn) {
+			continue
+		}
+		storesActive := false
+		for _, b := range fn.Blocks {
+			for _, in := range b.Instrs {
+				if f, _, _ := core.StoreField(in); f == R.DBActive {
+					storesActive = true
+				}
+			}
+		}
+		if !storesActive {
+			continue
+		}
+		for _, b := range fn.Blocks {
+			for _, in := range b.Instrs {
+				c, ok := in.(*ssa.Call)
+				if !ok {
+					continue
+				}
+				callee := c.Common().StaticCallee()
+				if callee == nil || callee.Package() == nil || callee.Package().Pkg.Path() != core.ModPath+"/datafile" {
+					continue
+				}
+				res := callee.Signature.Results()
+				if res.Len() == 0 {
+					continue
+				}
+				pt, isPtr := res.At(0).Type().(*types.Pointer)
+				if !isPtr {
+					continue
+				}
+				if nn, ok := pt.Elem().(*types.Named); !ok || nn != R.DataFile {
+					continue
+				}
+				// the id argument: the uint32 parameter
+				for i, a := range c.Common().Args {
+					bt, ok := a.Type().Underlying().(*types.Basic)
+					if !ok || bt.Kind() != types.Uint32 || i >= callee.Signature.Params().Len() {
+						continue
+					}
+					n++
+					var bad []string
+					seen := map[ssa.Value]bool{}
+					var walk func(v ssa.Value, d int)
+					walk = func(v ssa.Value, d int) {
+						if v == nil || seen[v] || d > 8 {
+							return
+						}
+						seen[v] = true
+						switch t := v.(type) {
+						case *ssa.Const, *ssa.Parameter:
+						case *ssa.Phi:
+							for _, e := range t.Edges {
+								walk(e, d+1)
+							}
+						case *ssa.Convert:
+							walk(t.X, d+1)
+						case *ssa.ChangeType:
+							walk(t.X, d+1)
+						case *ssa.BinOp:
+							_, xc := t.X.(*ssa.Const)
+							_, yc := t.Y.(*ssa.Const)
+							switch {
+							case t.Op == token.ADD && yc:
+								walk(t.X, d+1)
+							case t.Op == token.ADD && xc:
+								walk(t.Y, d+1)
+							default:
+								bad = append(bad, "computed by "+t.Op.String()+" at "+p.InstrPos(t))
+							}
+						case *ssa.UnOp:
+							if f, base := core.LoadedField(t); f == R.DFID {
+								okBase := false
+								if bf, _ := core.LoadedField(base); bf == R.DBActive {
+									okBase = true
+								}
+								for _, o := range core.Origins(base) {
+									if bf, _ := core.LoadedField(o); bf == R.DBActive {
+										okBase = true
+									}
+								}
+								if !okBase {
+									bad = append(bad, "id of a file other than the active one at "+p.InstrPos(t))
+								}
+								return
+							}
+							if _, isIdx := t.X.(*ssa.IndexAddr); isIdx {
+								return // element of an id list (loading)
+							}
+							if al, isAl := t.X.(*ssa.Alloc); isAl {
+								for _, o := range core.Origins(al) {
+									if o != ssa.Value(al) {
+										walk(o, d+1)
+									}
+								}
+								return
+							}
+							bad = append(bad, "loaded from memory at "+p.InstrPos(t))
+						case *ssa.Extract:
+							if _, isNext := t.Tuple.(*ssa.Next); isNext {
+								return // range over an id list / map of files
+							}
+							bad = append(bad, "result of a call at "+p.InstrPos(t))
+						case *ssa.Call:
+							bad = append(bad, "result of "+core.CalleeName(t.Common())+" at "+p.InstrPos(t))
+						default:
+							bad = append(bad, fmt.Sprintf("%T at %s", v, p.InstrPos(v.(ssa.Instruction))))
+						}
+					}
+					walk(a, 0)
+					rep.Check(len(bad) == 0, "FID1", "new-file-id:"+core.FuncKey(fn), "the id of a newly opened active file continues the active file's id", p.InstrPos(in), "the id passed to "+callee.Name()+" is "+strings.Join(sortedStr(bad), "; ")+": after a merge has left gaps in the id sequence the new file sorts below files that hold older data, and the restart scan (ascending ids) resurrects stale values", true)
+				}
+			}
+		}
+	}
+	if n == 0 {
+		rep.Unk("FID1", "vacuity:new-file-id", "a function that opens a data file and makes it the active one exists", "", "none found")
 	}
 }
